@@ -17,6 +17,7 @@ from __future__ import annotations
 
 import asyncio
 import copy
+import hashlib
 import json
 import math
 import multiprocessing
@@ -80,6 +81,10 @@ def gen_schema(rng, si):
     nf = rng.randint(1, 4)
     fields = []
     coherent = si % 2 == 0          # half the schemas are satisfiable by construction (so that many documents validate)
+    if si % 4 == 1:                 # a quarter: fields for which schema repair has something to do (ENUM case, TYPE[NUMBER] strings)
+        picks = rng.sample(REPAIR_FIELDS, rng.randint(2, 4))
+        return {"name": name, "policy": policy, "fields": [(f, ch, rng.choice(["SELF", "SELF", None])) for f, ch, _ in picks],
+                "ptargets": [], "default": None, "fm": []}
     for fi in range(nf):
         ln = rng.choice([1, 2, 2, 3, 4])
         ch = [rng.choice(by_kind[rng.choice(c08.KINDS13)]) for _ in range(ln)]
@@ -214,11 +219,64 @@ def gen_block(rng, g, s, name=None):
     return ("b", name or s["name"], rng.choice([None, None, None, "TARGET", "SELF", "ARCHIVE"]), children, g.comments())
 
 
+def repairable_value(rng, ch):
+    """a value that schema repair WOULD rewrite if it stood in the validated block: enum member in another case, numeral as a
+    (possibly padded) string"""
+    for c in ch:
+        if c[0] == "ENUM":
+            ms = [c08.pv(x) for x in c[1] if isinstance(c08.pv(x), str) and c08.pv(x).lower() != c08.pv(x).upper()]
+            if ms:
+                m = rng.choice(ms)
+                return ("str", rng.choice([m.lower(), m.swapcase(), m.capitalize()]) if m.lower() != m else m.upper())
+    if any(c[0] in ("RANGE",) or (c[0] == "TYPE" and c[1] == "NUMBER") for c in ch):
+        return ("str", rng.choice(["5", "42", " 7 ", "3.5", "007"]))
+    return ("str", rng.choice(["active", "draft", "5", "Done"]))
+
+
+def field_echoes(rng, s, d):
+    """schema field names REPEATED outside the validated block's direct children, holding repairable values: top-level assignment,
+    sibling block, nested blocks at depth 2-3, section, list item / inline map, META.  Validation must neither judge nor touch them."""
+    fields = [(f, ch) for f, ch, _ in s["fields"]]
+    out = []
+
+    def fa():
+        f, ch = rng.choice(fields)
+        return ("a", f, repairable_value(rng, ch), [], None)
+    kinds = rng.sample(["top", "sibling", "deep2", "deep3", "section", "listmap", "meta", "section-block"], rng.randint(1, 4))
+    for k in kinds:
+        if k == "top":
+            out.append(fa())
+        elif k == "sibling":
+            out.append(("b", rng.choice(["ARCHIVE", "HISTORY", "OTHER"]), rng.choice([None, None, "TARGET"]), [fa() for _ in range(rng.randint(1, 3))], []))
+        elif k == "deep2":
+            out.append(("b", "OUTER", None, [("b", "MID", None, [fa(), fa()], [])], []))
+        elif k == "deep3":
+            out.append(("b", "OUTER3", None, [("a", "K", ("int", "1"), [], None), ("b", "MID", None, [("b", "DEEP", None, [fa()], [])], [])], []))
+        elif k == "section":
+            out.append(("s", str(rng.randint(3, 8)), "HISTORY", None, [fa(), fa()], []))
+        elif k == "section-block":
+            out.append(("s", "9", "WRAPS", None, [("b", "INNERB", None, [fa()], [])], []))
+        elif k == "listmap":
+            f, ch = rng.choice(fields)
+            v = repairable_value(rng, ch)
+            out.append(("a", rng.choice(["LOG", "ITEMS"]), ("list", [("map", [(f, v)]), v, ("str", "x")]), [], None))
+        elif k == "meta":
+            f, ch = rng.choice(fields)
+            if f not in [k2 for k2, _ in d["meta"]]:
+                d["meta"] = list(d["meta"]) + [(f, ("v", repairable_value(rng, ch)))]
+    return out, kinds
+
+
 def gen_doc(rng, g, s):
     d = g.doc()
     secs = [n for n in d["sections"]]
     block = gen_block(rng, g, s)
     secs.insert(rng.randint(0, len(secs)), block)
+    if rng.random() < 0.6:
+        echoes, kinds = field_echoes(rng, s, d)
+        d["_echo_kinds"] = kinds
+        for e in echoes:
+            secs.insert(rng.randint(0, len(secs)), e)
     r = rng.random()
     if r < 0.08:        # a second block of the same name (both are validated)
         secs.insert(rng.randint(0, len(secs)), gen_block(rng, g, s))
@@ -231,7 +289,9 @@ def gen_doc(rng, g, s):
     if not (d["sections"] and d["sections"][-1][0] == "a" and d["sections"][-1][2][0] != "list"):
         d["trailing"] = []
     if rng.random() < 0.5:
-        d["meta"] = gen_meta_builtin(rng, g)
+        keep = [(k, v) for k, v in d["meta"] if k in {f for f, _, _ in s["fields"]}]
+        newm = gen_meta_builtin(rng, g)
+        d["meta"] = newm + [(k, v) for k, v in keep if k not in {k2 for k2, _ in newm}]
     # frontmatter variants: mapping (good / wrong types / other keys), scalar, list, comment only, broken YAML; absent otherwise.
     # (a BLANK frontmatter block is a lenient spelling of "absent": the canonical text drops it -- added per respelling in build_texts)
     if d["grammar"] is None and rng.random() < (0.7 if s["fm"] else 0.2):
@@ -437,6 +497,14 @@ def observe_text(text, name, want_cli, tmpdir, second_profiles, write_modes=(Fal
     for len_ in write_modes:
         w = _run(WriteTool().execute(target_path=target, content=text, schema=name, corrections_only=True, lenient=len_))
         obs["write:lenient=%d" % len_] = [w.get("status"), w.get("validation_status"), _pairs(w.get("validation_errors"))]
+        if w.get("status") == "success" and not any(isinstance(c_, dict) and (c_.get("tier") == "REPAIR" or "before" in c_) for c_ in w.get("corrections", [])):
+            # no repair / rewrite reported: what would be written is the plain canonical text of the input
+            try:
+                plain = emit(parse(text)) if not len_ else emitted
+            except Exception:  # noqa
+                plain = None
+            if plain is not None and w.get("canonical_hash") != hashlib.sha256(plain.encode("utf-8")).hexdigest():
+                problems.append(("write:lenient=%d" % len_, "no repair reported, yet canonical_hash is not the hash of the plain canonical text of the input"))
         if os.path.exists(target):
             problems.append(("write", "corrections_only wrote the target file"))
             os.unlink(target)
@@ -913,10 +981,12 @@ def gen_repair_doc(rng, g, s):
         children = [("a", s["fields"][0][0], neutral_of(s["pools"][s["fields"][0][0]][0]), [], None)]
     d = g.doc()
     secs = [x for x in d["sections"] if x[0] == "a" and x[2][0] not in ("zone", "holo", "list")][:2] + [("b", s["name"], None, children, [])]
+    d["meta"] = [("TYPE", ("v", ("str", "TEST")))]
+    echoes, _ = field_echoes(rng, s, d)
+    secs += echoes
     rng.shuffle(secs)
     d["sections"] = secs
     d["trailing"], d["front"], d["grammar"] = [], None, None
-    d["meta"] = [("TYPE", ("v", ("str", "TEST")))]
     return d
 
 
@@ -1339,6 +1409,8 @@ def run(ctx):
             # full = every surface on every text; otherwise every surface on the canonical text and a rotating subset on the others
             work_items.append({"id": i, "schema": sname, "schema_text": None if use_meta else s["text"], "doc": d, "seed": rng.random(),
                                "reps": reps, "cli": cli, "second": PROFILES[i % 4], "topy": i % 3 == 0, "full": ctx.quick() or i % 10 == 0})
+            for ek in d.pop("_echo_kinds", []):
+                ctx.hist("field_name_repeated_outside_block", ek)
             ctx.hist("schema_kind", ("shipped " + sname) if use_meta else ("generated+FRONTMATTER" if s["fm"] else "generated"))
             _shape = next((k for k, v in FRONT_WS_SHAPES.items() if v == d["front"]), None)
             if _shape:
